@@ -1,6 +1,7 @@
 package props
 
 import (
+	"bytes"
 	"errors"
 	"fmt"
 
@@ -279,7 +280,7 @@ func init() {
 	})
 	register(&Property{
 		ID:   "C06",
-		Rule: "rapid draws a value tree (int64, float32/64 bits, strings incl. decimal spellings, homogeneous and mixed containers) and renders it with the harness' constructive UBJSON encoder under drawn choices (every integer marker that holds the value, C, H, any length marker i/U/I/l/L, plain/counted/typed containers incl. typed containers of containers, no-ops at top level (before and after the value) and in plain arrays); deterministic part: 8 fixed documents framed by leading/trailing no-ops, whole and cut at every position; 1 in 4 documents is parsed after 1..2 earlier calls of the package-level Parse on truncated prefixes / hostile headers; 1 in 3 documents arrives through ParseReader in generated chunks; oracle = independent draft-12 decoder; non-trivial = counted/typed container, non-minimal length marker, no-op or depth>=2; distinct by document hash",
+		Rule: "rapid draws a value tree (int64, float32/64 bits, strings incl. decimal spellings, homogeneous and mixed containers) and renders it with the harness' constructive UBJSON encoder under drawn choices (every integer marker that holds the value, C, H, any length marker i/U/I/l/L, plain/counted/typed containers incl. typed containers of containers, no-ops at top level (before and after the value) and in plain arrays); deterministic part: field names and strings whose one-byte length equals a marker byte (20 markers x {i,U} x 3 name fillings incl. bytes that read as small lengths x counted/typed/plain objects and counted arrays) cut at each of the first 9 positions; 8 fixed documents framed by leading/trailing no-ops, whole and cut at every position; 1 in 4 documents is parsed after 1..2 earlier calls of the package-level Parse on truncated prefixes / hostile headers; 1 in 3 documents arrives through ParseReader in generated chunks; oracle = independent draft-12 decoder; non-trivial = counted/typed container, non-minimal length marker, no-op or depth>=2; distinct by document hash",
 		New:  func() any { return &DocCase{} },
 		Draw: func(t *rapid.T) any {
 			v := gen.Value(t, gen.ValueCfg{IntRange: "int64", Floats32: true, Decimals: true, Deep: true})
@@ -292,6 +293,29 @@ func init() {
 		},
 		Check: checkC06,
 		Enum: func(emit func(c any) bool) {
+			// field names (counted and typed objects) and strings whose one-byte length
+			// equals a marker byte, cut at every position of the header: a length byte
+			// must never be looked at as anything but a length
+			for _, l := range []byte("NZTFiUIlLdDCSH[]{}#$") {
+				for _, nb := range []byte{'k', '0', 1} {
+					name := bytes.Repeat([]byte{nb}, int(l))
+					for _, lm := range []byte{'i', 'U'} {
+						docs := [][]byte{
+							append(append([]byte{'{', '#', 'i', 1, lm, l}, name...), 'T'),
+							append(append([]byte{'{', '$', 'i', '#', 'i', 1, lm, l}, name...), 5),
+							append(append([]byte{'{', lm, l}, name...), 'i', 5, '}'),
+							append([]byte{'[', '#', 'i', 1, 'S', lm, l}, name...),
+						}
+						for _, doc := range docs {
+							for cut := 1; cut <= 9 && cut < len(doc); cut++ {
+								if !emit(&DocCase{Doc: doc, Cuts: []int{cut}}) {
+									return
+								}
+							}
+						}
+					}
+				}
+			}
 			// fixed documents framed by top-level no-ops, whole and cut at every position
 			for _, set := range c18EnumDocs["ubjson"] {
 				for _, d := range set {
